@@ -80,6 +80,25 @@ def sf_bytes_xor(E, st, args, kw):
 _interp.SPEC_BUILTINS.setdefault('bytes_xor', BuiltinV('spec.bytes_xor', sf_bytes_xor))
 
 
+def _junction(is_and):
+    def sf(E, st, args, kw):
+        """conj(a, b, ...) / disj(a, b, ...): n-ary `and` / `or` of truth values WITHOUT short-circuit path splitting (all
+        arguments are evaluated; use only with arguments whose evaluation cannot raise)"""
+        ts = [E.truth(a, st) for a in args]
+        if any(t is (not is_and) for t in ts):
+            return [('val', st, not is_and)]
+        zs = [t for t in ts if not isinstance(t, bool)]
+        if not zs:
+            return [('val', st, is_and)]
+        from vf.pyvc.values import mk_bool
+        return [('val', st, mk_bool((z3.And if is_and else z3.Or)(zs) if len(zs) > 1 else zs[0]))]
+    return sf
+
+
+_interp.SPEC_BUILTINS.setdefault('conj', BuiltinV('spec.conj', _junction(True)))
+_interp.SPEC_BUILTINS.setdefault('disj', BuiltinV('spec.disj', _junction(False)))
+
+
 def m_strxor(E, st, args, kwargs):
     """Crypto.Util.strxor.strxor (src/strxor.c): ValueError iff the lengths differ, else the bytewise xor.
     ASSUMED (bounded: bounded/accel.py strxor against a Python loop); HPKE does not use output=."""
@@ -280,7 +299,7 @@ def _suite(o):
     return '%ssuite_id_hpke(%s._kem_id, %s._kdf_id, %s._aead_id)' % (R, o, o, o)
 
 
-def add_hpke(reg):
+def add_hpke(reg, new_other_curve=False):
     # ---- labeled KDF functions (RFC 9180 section 4)
     reg.add(Contract(H + '_labeled_extract', params={'salt': 'bytes', 'label': 'bytes', 'ikm': 'bytes', 'suite_id': 'bytes', 'hashmod': HASHMOD},
                      raises={}, modifies=[],
@@ -379,37 +398,34 @@ def add_hpke(reg):
         kem_ = '%s._kem_id' % o
         sending = 'receiver_key._d is None'
         pkE_ = '%spk_canon(%s, enc)' % (R, kem_)
-        cases = {   # (guard, dh, kem_context)
-            'base_S': ('%s and sender_key is None' % sending, DH('%s.enc' % o, pkR), '%s.enc + %s' % (o, pkR)),
-            'auth_S': ('%s and sender_key is not None' % sending, '%s + %s' % (DH('%s.enc' % o, pkR), DH(pkS, pkR)),
-                       '%s.enc + %s + %s' % (o, pkR, pkS)),
-            'base_R': ('not (%s) and sender_key is None' % sending, DH(pkR, pkE_), 'enc + ' + pkR),
-            'auth_R': ('not (%s) and sender_key is not None' % sending, '%s + %s' % (DH(pkR, pkE_), DH(pkR, pkS)),
-                       'enc + %s + %s' % (pkR, pkS))}
+        # dh and kem_context of Encap / AuthEncap (sender) and Decap / AuthDecap (receiver), 4.1
+        dh = ('((%s if %s else %s) + ((%s if %s else %s) if sender_key is not None else b""))'
+              % (DH('%s.enc' % o, pkR), sending, DH(pkR, pkE_), DH(pkS, pkR), sending, DH(pkR, pkS)))
+        ctx = '((%s.enc if %s else enc) + %s + (%s if sender_key is not None else b""))' % (o, sending, pkR, pkS)
+        ks = ('%skdf_hash(%s._kdf_id), %s, %s, %sdhkem_secret(%s, %s, %s), %s, %s, %s'
+              % (R, o, _suite(o), mode, R, kem_, dh, ctx, info, psk, psk_id))
         out = {'valid': 'valid(%s)' % o, 'seq0': '%s._sequence == 0' % o, 'role': '%s._encrypt == (%s)' % (o, sending),
                'aead': '%s._aead_id == aead_id' % o, 'mode': '%s._mode == %s' % (o, mode),
-               'kem': '%s == %s' % (kem_, kem), 'enc_R': 'not (%s) ==> %s.enc == enc' % (sending, o)}
-        for nm, (guard, dh, ctx) in cases.items():
-            ks = ('%skdf_hash(%s._kdf_id), %s, %s, %sdhkem_secret(%s, %s, %s), %s, %s, %s'
-                  % (R, o, _suite(o), mode, R, kem_, dh, ctx, info, psk, psk_id))
-            out['key_' + nm] = '(%s) ==> %s._key == %sks_key(%s, %saead_nk(aead_id))' % (guard, o, R, ks, R)
-            out['base_nonce_' + nm] = '(%s) ==> %s._base_nonce == %sks_base_nonce(%s)' % (guard, o, R, ks)
-            out['exporter_' + nm] = ('(%s) ==> %s._export_secret == %sks_exporter_secret(%s, %skdf_nh(%s._kdf_id))'
-                                     % (guard, o, R, ks, R, o))
+               'kem': '%s == %s' % (kem_, kem), 'enc_R': 'not (%s) ==> %s.enc == enc' % (sending, o),
+               'key': '%s._key == %sks_key(%s, %saead_nk(aead_id))' % (o, R, ks, R),
+               'base_nonce': '%s._base_nonce == %sks_base_nonce(%s)' % (o, R, ks),
+               'exporter_secret': '%s._export_secret == %sks_exporter_secret(%s, %skdf_nh(%s._kdf_id))' % (o, R, ks, R, o)}
         return out
 
     def refusals(mode, psk_id, psk):
+        """(static_bad, pk_bad, dh_bad): set-up must be refused because of the PSK inputs / curve / enc presence; because enc
+        does not deserialize; because a DH result is invalid.  On every path the guards over None-ness, roles and curves are
+        concrete; the symbolic parts are combined with conj/disj (no path splitting)"""
         sending = 'receiver_key._d is None'
         psk_ok = '%spsk_inputs_ok(%s, %s, %s)' % (R, mode, psk, psk_id)
         supported = 'receiver_key.curve in %r' % (HPKE_CURVES,)
-        static_bad = ('not %s or not %s or ((%s) and enc is not None) or (not (%s) and enc is None)'
-                      % (psk_ok, supported, sending, sending))
+        static_bad = ('disj(not %s, not %s, (%s) and enc is not None, not (%s) and enc is None)' % (psk_ok, supported, sending, sending))
         pkE_ = '%spk_canon(%s, enc)' % (R, kem)
-        pk_bad = '%s and %s and not (%s) and enc is not None and not %spk_ok(%s, enc)' % (psk_ok, supported, sending, R, kem)
-        dh_bad_R = ('not (%s) and enc is not None and %s and %spk_ok(%s, enc) and (%s or (sender_key is not None and %s))'
-                    % (sending, supported, R, kem, bad(pkE_), bad(pkS)))
-        dh_bad_S = '(%s) and %s' % (sending, bad(pkR))
-        return static_bad, pk_bad, '(%s) or (%s)' % (dh_bad_R, dh_bad_S)
+        receiving = '(%s and not (%s) and enc is not None)' % (supported, sending)
+        pk_bad = '(%s and conj(%s, not %spk_ok(%s, enc)))' % (receiving, psk_ok, R, kem)
+        dh_bad_R = ('(%s and conj(%spk_ok(%s, enc), disj(%s, sender_key is not None and %s)))' % (receiving, R, kem, bad(pkE_), bad(pkS)))
+        dh_bad_S = '((%s) and %s)' % (sending, bad(pkR))
+        return static_bad, pk_bad, 'disj(%s, %s)' % (dh_bad_R, dh_bad_S)
     one_private = 'sender_key is None or (sender_key.curve == receiver_key.curve and sender_key.has_private() != receiver_key.has_private())'
     static_bad, pk_bad, dh_bad = refusals('mode', 'psk_pair[0]', 'psk_pair[1]')
     ens = setup('self', 'mode', 'psk_pair[0]', 'psk_pair[1]', 'info')
@@ -419,7 +435,7 @@ def add_hpke(reg):
                      options={'assume_valid': False}, requires=[one_private],
                      # invalid PSK / key / enc combinations are refused at set-up, and nothing else is
                      raises={'DeserializeError': ('iff', pk_bad),
-                             'ValueError': ('iff', '(%s) or (not (%s) and (%s))' % (static_bad, static_bad, dh_bad))},
+                             'ValueError': ('iff', 'disj(%s, %s)' % (static_bad, dh_bad))},
                      ensures=ens, modifies=['self.' + f for f in FIELDS],
                      opaque=[R + 'labeled_extract', R + 'labeled_expand', R + 'extract_and_expand', R + 'psk_inputs_ok']))
     # new(): mode selection (Table 1) from sender_key / psk, exactly one private key, curve match, supported AEAD and curve
@@ -427,13 +443,16 @@ def add_hpke(reg):
     psk_id_e, psk_e, info_e = '(psk[0] if psk is not None else b"")', '(psk[1] if psk is not None else b"")', '(info if info is not None else b"")'
     keys_bad = ('(sender_key is not None and (sender_key.has_private() == receiver_key.has_private() or sender_key.curve != receiver_key.curve))')
     static_bad, pk_bad, dh_bad = refusals(mode_e, psk_id_e, psk_e)
-    new_bad = 'aead_id not in (1, 2, 3) or %s or %s' % (keys_bad, static_bad)
+    new_bad = 'disj(aead_id not in (1, 2, 3), %s, %s)' % (keys_bad, static_bad)
     ens = setup('result', mode_e, psk_id_e, psk_e, info_e)
+    # verified in two parts that together cover every input: per receiver curve with every key of the proof on that curve
+    # (sender_key absent or on the same curve), and -- new_other_curve -- sender_key present on a different curve
     reg.add(Contract(H + 'new',
-                     params={'receiver_key': KEY, 'aead_id': 'int', 'enc': 'bytes|none', 'sender_key': KEY + '|none',
+                     params={'receiver_key': KEY, 'aead_id': 'int', 'enc': 'bytes|none', 'sender_key': KEY + ('' if new_other_curve else '|none'),
                              'psk': 'tuple(bytes,bytes)|none', 'info': 'bytes|none'},
-                     raises={'DeserializeError': ('iff', 'not (aead_id not in (1, 2, 3) or %s) and (%s)' % (keys_bad, pk_bad)),
-                             'ValueError': ('iff', '(%s) or (not (%s) and (%s))' % (new_bad, new_bad, dh_bad))},
+                     requires=['sender_key.curve != receiver_key.curve'] if new_other_curve else [],
+                     raises={'DeserializeError': ('iff', 'conj(aead_id in (1, 2, 3), not %s, %s)' % (keys_bad, pk_bad)),
+                             'ValueError': ('iff', 'disj(%s, %s)' % (new_bad, dh_bad))},
                      ensures=ens, modifies=[], result='obj:' + HC,
                      opaque=[R + 'labeled_extract', R + 'labeled_expand', R + 'extract_and_expand', R + 'psk_inputs_ok', R + 'ks_key',
                              R + 'ks_base_nonce', R + 'ks_exporter_secret', R + 'dhkem_secret']))
@@ -470,10 +489,127 @@ def add_hpke(reg):
     return reg
 
 
-def registry(curve=None):
+def add_history_lemmas(reg):
+    """hpke_history (C15) and nonce freshness (C11), by induction over the history of a context; the inductive steps are the
+    client programs spec.rfc9180.receiver_step / sender_step, verified against the contracts of unseal() / seal():
+
+      receiver: INV  ctx._sequence == accepted.   Step: for an ARBITRARY offered (ciphertext, aad) -- genuine, modified,
+        replayed, truncated, out of order -- INV is preserved, accepted grows by one exactly when the message is the
+        authentic AEAD message for nonce(base_nonce, accepted) (so the sender's message number i can only be accepted at
+        accepted == i, and after a rejection the context still opens message number `accepted`: RFC 9180 5.2), and grows at
+        all only below the limit 2**96 - 1.  Base: __init__ gives _sequence == 0 == accepted.
+      sender: INV  ctx._sequence == sent.  Step: a successful seal() is Seal(key, nonce(base_nonce, sent), aad, pt) and
+        sent' == sent + 1; a refused one changes nothing.  Hence the k-th sealed message uses nonce(base_nonce, k), k < 2**96 - 1,
+        and by hpke.nonce_injective two different messages of one context never share a nonce (C11)."""
+    S = 'spec.rfc9180.'
+    authentic = ('%saead_open_ok(%saead_family(ctx._aead_id), ctx._key, %snonce(ctx._base_nonce, accepted), (aad if aad else b""), ciphertext)'
+                 % (R, R, R))
+    reg.add(Contract(S + 'receiver_step', params={'ctx': 'obj:' + HC, 'accepted': 'int', 'ciphertext': 'bytes', 'aad': 'bytes|none'},
+                     requires=['ctx._sequence == accepted', 'not ctx._encrypt'], raises={}, modifies=['ctx._sequence'],
+                     ensures={'inv': 'ctx._sequence == result', 'valid': 'valid(ctx)',
+                              'counts': 'result == accepted + 1 or result == accepted',
+                              'accepted_iff_authentic': '(result == accepted + 1) == conj(len(ciphertext) >= 16, accepted < 2 ** 96 - 1, %s)' % authentic},
+                     opaque=[R + 'nonce'], result='int'))
+    reg.add(Contract(S + 'sender_step', params={'ctx': 'obj:' + HC, 'sent': 'int', 'plaintext': 'bytes', 'aad': 'bytes|none'},
+                     requires=['ctx._sequence == sent', 'ctx._encrypt'], raises={}, modifies=['ctx._sequence'],
+                     ensures={'inv': 'ctx._sequence == result[0]', 'valid': 'valid(ctx)',
+                              'refused_iff_exhausted': '(result[1] is None) == (sent >= 2 ** 96 - 1)',
+                              'refused_unchanged': 'result[1] is None ==> result[0] == sent',
+                              'sealed': 'result[1] is not None ==> (result[0] == sent + 1 and result[1] == '
+                                        '%saead_seal(ctx._aead_id, ctx._key, %snonce(ctx._base_nonce, sent), (aad if aad else b""), plaintext))' % (R, R)},
+                     opaque=[R + 'nonce']))
+    return reg
+
+
+# ---------------------------------------------------------------------------------------------- spec-level lemma units
+
+def lemma_unit(prop, uid, build_registry, name, variables, hyps, steps, doc=''):
+    """A spec-level lemma, discharged by SMT without any code: for all `variables` (name -> type), under `hyps` (named
+    clauses), every clause of `steps` holds.  Stepwise (DESIGN 2.6): the steps are proved in order; each names the earlier
+    facts it uses -- (clause, [names of hypotheses / earlier steps]) -- and only those (plus the defining facts of the spec
+    symbols) are given to the solver, which keeps each query inside one theory.  Dropping hypotheses is sound for validity; a
+    `sat`/`unknown` answer of such a weakened query is reported as undecided, never as a violation."""
+    from vf.core import Unit
+
+    def run():
+        import time
+        from vf.pyvc.interp import Engine, State, Frame
+        from vf.pyvc.contracts import eval_clause, fresh_typed, _as_z3
+        reg = build_registry()
+        E = Engine(reg, {})
+        st = State()
+        st.frames.append(Frame({}, None))
+        st.frame.spec_mode = True
+        types = []
+        for nm, typ in variables.items():
+            n0 = len(st.pc)
+            st.frame.env[nm] = fresh_typed(E, st, typ, nm)
+            types += st.pc[n0:]
+        known = {}
+        for nm, cl in hyps.items():
+            known[nm] = _as_z3(eval_clause(E, cl, st))
+        results = []
+        t_all = time.time()
+        s0 = z3.Solver()
+        s0.set('timeout', 10000)
+        s0.add(*(types + list(known.values())))
+        vac = s0.check()
+        results.append({'id': '%s.%s.hypotheses_satisfiable' % (prop, name), 'kind': 'vacuity', 'clause': 'the hypotheses of the lemma are satisfiable',
+                        'status': 'discharged' if vac == z3.sat else 'undecided', 'backend': 'z3', 'seconds': 0.0,
+                        'detail': '' if vac == z3.sat else 'hypotheses: %s' % vac, 'witness': None})
+        for nm, (cl, uses) in steps.items():
+            n0 = len(st.pc)
+            goal = _as_z3(eval_clause(E, cl, st))
+            facts = [t for t in st.pc if t.get_id() in st.facts]       # defining facts of the spec symbols met so far
+            hs = types + facts + [known[u] for u in uses]
+            status, backend, t0 = 'undecided', 'z3', time.time()
+            for cfg in ({}, {'arith.solver': 2}, {'arith.solver': 2, 'random_seed': 7}):
+                s = z3.Solver()
+                s.set('timeout', 20000)
+                for k, v in cfg.items():
+                    s.set(k, v)
+                s.add(*hs)
+                s.add(z3.Not(goal))
+                if s.check() == z3.unsat:
+                    status, backend = 'discharged', 'z3' + (' arith.solver=2' if cfg else '')
+                    break
+            results.append({'id': '%s.%s.%s' % (prop, name, nm), 'kind': 'lemma', 'clause': '%s   [from: %s]' % (cl, ', '.join(uses) or '-'),
+                            'status': status, 'backend': backend, 'seconds': round(time.time() - t0, 3),
+                            'detail': '' if status == 'discharged' else 'solver did not prove this step from the listed facts', 'witness': None})
+            known[nm] = goal
+        ok = all(r['status'] == 'discharged' for r in results)
+        return {'functions': [{'target': 'lemma:' + name, 'engine': 'PYVC-spec', 'status': 'proved' if ok else 'not-proved', 'source': None,
+                               'paths': 1, 'obligations': len(results), 'entry_states': 1, 'seconds': round(time.time() - t_all, 2)}],
+                'results': results, 'assumptions': [], 'trusted': []}
+    return Unit(uid, run, 'pyvc', ('quick', 'thorough'), 1)
+
+
+def nonce_injective_unit(prop):
+    """C11 / C15: ComputeNonce is injective in the sequence number on [0, 2**96): different messages of one context never share
+    a nonce.  Statement proved: for every 12-byte base_nonce and s1, s2 in range,
+            nonce(base_nonce, s1) == nonce(base_nonce, s2)  ==>  s1 == s2
+    (xor with a constant is injective bytewise -- bit-vector step per byte -- and I2OSP(., 12) is injective below 256**12 --
+    integer steps: equal digits give equal remainders mod 256**k, by induction on k)."""
+    hyps = {'range': '0 <= s1 and s1 < 2 ** 96 and 0 <= s2 and s2 < 2 ** 96',
+            'same_nonce': '%snonce(base, s1) == %snonce(base, s2)' % (R, R)}
+    steps = {}
+    for k in range(12):         # byte k of the nonce holds digit 11 - k of the sequence number
+        steps['byte%d' % k] = ('nth(%snonce(base, s1), %d) == nth(%snonce(base, s2), %d)' % (R, k, R, k), ['same_nonce'])
+    for k in range(12):
+        steps['digit%d' % k] = ('(s1 // 256 ** %d) %% 256 == (s2 // 256 ** %d) %% 256' % (k, k), ['range', 'byte%d' % (11 - k)])
+    steps['rem0'] = ('s1 % 1 == s2 % 1', [])
+    for k in range(12):
+        steps['rem%d' % (k + 1)] = ('s1 %% 256 ** %d == s2 %% 256 ** %d' % (k + 1, k + 1), ['range', 'rem%d' % k, 'digit%d' % k])
+    steps['injective'] = ('s1 == s2', ['range', 'rem12'])
+    return lemma_unit(prop, 'hpke.nonce_injective', registry, 'hpke.nonce_injective',
+                      {'base': 'bytes[12]', 's1': 'int', 's2': 'int'}, hyps, steps)
+
+
+def registry(curve=None, new_other_curve=False):
     reg = base_registry()
     add_natives(reg, curve)
-    add_hpke(reg)
+    add_hpke(reg, new_other_curve)
+    add_history_lemmas(reg)
     return reg
 
 
